@@ -225,6 +225,10 @@ fn doc_level(op: B) -> u8 {
 enum Mode {
     Min,
     Full,
+    /// long spines stay as the table prints them; every operand subtree of height <= 8 is fully
+    /// parenthesised (a completely parenthesised chain of hundreds of operands would itself be
+    /// hundreds of levels deep, beyond the documented nesting limit)
+    FullSmall,
 }
 
 /// lexical style choices (none of them may change the meaning)
@@ -309,6 +313,13 @@ fn emit_child(t: &T, parens: bool, out: &mut Vec<String>, mode: Mode, st: &Style
         Mode::Min => parens,
         // fully parenthesised: every compound operand is wrapped; leaves optionally
         Mode::Full => !matches!(t, T::Star) && (!is_leaf(t) || st.wrap_leaves),
+        Mode::FullSmall => {
+            if tree_depth(t) <= 8 {
+                !matches!(t, T::Star) && !is_leaf(t)
+            } else {
+                parens
+            }
+        }
     };
     if parens {
         out.push("(".into());
@@ -740,10 +751,20 @@ fn parse_in_ctx(ctx: PCtx, text: &str) -> PRes {
 
 /// the precedence oracle for one tree; returns number of parses judged
 fn check_tree(t: &T, st: &Style, ctxs: &[PCtx], rep: &mut Report, replay: J) -> bool {
+    check_tree_modes(t, st, ctxs, &[Mode::Min, Mode::Full], false, rep, replay)
+}
+
+/// `shallow`: the printed text nests only a few levels (no long parenthesis / prefix / right-operand
+/// towers), so an answer "nesting too deep" is itself a wrong parse
+fn check_tree_modes(t: &T, st: &Style, ctxs: &[PCtx], modes: &[Mode], shallow: bool, rep: &mut Report, replay: J) -> bool {
     let mut ok = true;
-    for mode in [Mode::Min, Mode::Full] {
+    for &mode in modes {
         let text = print_tree(t, mode, st);
-        let mname = if mode == Mode::Min { "minimal-parens" } else { "full-parens" };
+        let mname = match mode {
+            Mode::Min => "minimal-parens",
+            Mode::Full => "full-parens",
+            Mode::FullSmall => "operands-parenthesised",
+        };
         for &ctx in ctxs {
             let full = ctx.wrap(&text, st);
             let res = match guard(|| parse_in_ctx(ctx, &full)) {
@@ -768,7 +789,15 @@ fn check_tree(t: &T, st: &Style, ctxs: &[PCtx], rep: &mut Report, replay: J) -> 
                     }
                 }
                 PRes::Err(e) => {
-                    if matches!(e.kind, ParseErrorKind::TooDeep) {
+                    if matches!(e.kind, ParseErrorKind::TooDeep) && shallow {
+                        viol(
+                            rep,
+                            format!("precedence:{}:{}:too-deep-without-nesting", ctx.parser(), mname),
+                            format!("{} print ({:?}, {} bytes, {} operators, nests <= ~20 levels) is rejected as `{}`: {:?}", mname, ctx, full.len(), count_ops(t), e, trunc(&full, 300)),
+                            replay.clone(),
+                        );
+                        ok = false;
+                    } else if matches!(e.kind, ParseErrorKind::TooDeep) {
                         // the documented nesting limit of expr.rs; not a regrouping
                         rep.count("tree_too_deep_skipped", 1);
                     } else {
@@ -853,6 +882,78 @@ fn tree_case_small(i: u64, rep: &mut Report) {
     if ok {
         rep.eval(hash_combine(0x51, i), count_ops(&t) >= 2);
         rep.count("trees_small", 1);
+    }
+}
+
+/// reference grouping of a flat operand/operator sequence by the documented table (precedence
+/// climbing over `doc_level`, every binary operator left-associative)
+fn group_flat(xs: &[T], ops: &[B], i: &mut usize, min: u8) -> T {
+    let mut lhs = xs[*i].clone();
+    while *i < ops.len() {
+        let op = ops[*i];
+        let l = doc_level(op);
+        if l < min {
+            break;
+        }
+        *i += 1;
+        let rhs = group_flat(xs, ops, i, l + 1);
+        lhs = T::Bin(Box::new(lhs), op, Box::new(rhs));
+    }
+    lhs
+}
+
+/// WIDE flat expressions: tens to hundreds of operands joined by binary operators, no parentheses
+/// needed anywhere (chains of one level, sums of products, AND-ed comparisons, all 19 operators mixed)
+fn tree_case_wide(case_seed: u64, rep: &mut Report) {
+    let mut r = Rng::new(case_seed);
+    let n = match r.below(4) {
+        0 => 20 + r.below(60),
+        1 => 80 + r.below(120),
+        _ => 200 + r.below(250),
+    };
+    let shape = r.below(5);
+    let pool: Vec<B> = match shape {
+        0 => {
+            let l = doc_level(*r.pick(&ALL_BIN));
+            ALL_BIN.iter().copied().filter(|o| doc_level(*o) == l).collect()
+        }
+        1 => vec![B::Add, B::Sub, B::Mul, B::Div, B::Mod],
+        2 => vec![B::And, B::Eq, B::Lt, B::Ge, B::Add, B::Mul],
+        3 => vec![B::Or, B::And, B::Eq, B::Ne],
+        _ => ALL_BIN.to_vec(),
+    };
+    let xs: Vec<T> = (0..n)
+        .map(|_| {
+            let leaf = if r.chance(1, 3) { T::Int(r.range(0, 99)) } else { T::Ident(r.pick(IDENT_POOL).to_string()) };
+            if r.chance(1, 12) {
+                T::Un(*r.pick(&ALL_UN), Box::new(leaf))
+            } else {
+                leaf
+            }
+        })
+        .collect();
+    let ops: Vec<B> = (0..n - 1).map(|_| *r.pick(&pool)).collect();
+    let mut i = 0;
+    let t = group_flat(&xs, &ops, &mut i, 0);
+    let st = Style::random(&mut r);
+    let modes: Vec<Mode> = if tree_depth(&t) <= 25 { vec![Mode::Min, Mode::FullSmall, Mode::Full] } else { vec![Mode::Min, Mode::FullSmall] };
+    // the minimal print of such a tree contains no parenthesis at all (sanity of the generator)
+    let min_text = print_tree(&t, Mode::Min, &Style::plain());
+    if min_text.contains('(') {
+        rep.inconclusive("wide-tree generator printed a parenthesis");
+        return;
+    }
+    let ok = check_tree_modes(&t, &st, &ALL_PCTX, &modes, true, rep, json!({"part": "tree-wide", "case_seed": case_seed}));
+    if ok {
+        rep.eval(hash_str(&min_text), true);
+        rep.count("trees_wide", 1);
+        rep.count("tree_wide_operands", n as u64);
+        rep.count_max("max:tree_wide_operands", n as u64);
+        // precedence drops: places where the next operator binds looser than the one before
+        rep.count("tree_wide_precedence_drops", ops.windows(2).filter(|w| doc_level(w[1]) < doc_level(w[0])).count() as u64);
+        if rep.want_sample() && case_seed % 97 == 0 {
+            rep.sample(json!({"part": "tree-wide", "operands": n, "minimal": trunc(&min_text, 160)}));
+        }
     }
 }
 
@@ -3756,6 +3857,7 @@ fn replay_case(args: &Args, rp: &J, total: &mut Report) {
     let scratch = args.scratch_dir("c15r");
     match rp["part"].as_str().unwrap_or("") {
         "tree" => tree_case_random(rp["case_seed"].as_u64().unwrap_or(0), total),
+        "tree-wide" => tree_case_wide(rp["case_seed"].as_u64().unwrap_or(0), total),
         "tree-small" => tree_case_small(rp["index"].as_u64().unwrap_or(0), total),
         "equiv" => equiv_case(rp["case_seed"].as_u64().unwrap_or(0), total),
         "nest" => {
@@ -3802,6 +3904,9 @@ fn main() {
             let n = args.extra_u64("trees", args.by_tier(120_000, 2_500_000));
             let rep = par_cases(args.threads, args.seed ^ 0x7EE, n, args.budget(40, 300), |_i, s, r| tree_case_random(s, r));
             total.merge(rep);
+            let n = args.extra_u64("wide-trees", args.by_tier(4_000, 120_000));
+            let rep = par_cases(args.threads, args.seed ^ 0x71DE, n, args.budget(30, 240), |_i, s, r| tree_case_wide(s, r));
+            total.merge(rep);
         }
         // ---- equivalence (in process)
         if want("equiv") {
@@ -3838,6 +3943,7 @@ fn main() {
             ("nest_cases", 60),
             ("trees_small", 900),
             ("trees_random", args.by_tier(5_000, 50_000)),
+            ("trees_wide", args.by_tier(1_000, 20_000)),
             ("statements", args.by_tier(1_000, 20_000)),
             ("both_ok", 500),
             ("statements[select-group-by]", 100),
@@ -3848,7 +3954,7 @@ fn main() {
     };
     let meta = Meta {
         property: "C15",
-        rule: "totality: one evaluation = one input string (<= 4096 bytes: random bytes, printable ASCII, unicode incl. characters whose uppercase has another length, keyword/operator soup, 1-4 token-level mutations of ~870 statements taken from the parser's and the router's own tests, nesting of 19 kinds up to the depth that fits in 4 KiB) pushed through tokenize, parse_expr, parse, parse_all (each twice) and, when execution stays inside the engines, QueryRouter::execute_parsed and ::execute, on a 2 MiB-stack thread of a child process; distinct by hash of the text, non-trivial if it lexes to >= 2 tokens. precedence: one evaluation = one expression tree (all 722 two-operator, 180 unary/binary and 34 295 three-operator trees; random trees of height 2-8 over all 19 binary and 3 unary operators plus IS NULL/IN/BETWEEN/LIKE/calls/CASE/arrays/tuples) whose minimal-parentheses and fully-parenthesised prints both parse back to it through parse_expr and through the statement parser in SELECT-item, WHERE and UPDATE-SET position; distinct by hash of the minimal print, non-trivial with >= 2 operators. equivalence: one evaluation = one completed program of 20-49 generated statements (CREATE/DROP TABLE, CREATE INDEX, SHOW TABLES, INSERT, SELECT with projection/ORDER BY/LIMIT/OFFSET, SELECT COUNT(*)/COUNT/SUM/AVG/MIN/MAX [GROUP BY 1-2 columns] [HAVING COUNT..], UPDATE, DELETE, NODE/EDGE CREATE/GET/DELETE/LIST, NEIGHBORS [BY SIMILAR], PATH, FIND NODE/EDGE, EMBED STORE/GET/DELETE/BATCH [INTO collection], SHOW/COUNT EMBEDDINGS, SIMILAR key|vector [COSINE] [INTO collection] [WHERE metadata filter] [CONNECTED TO], ENTITY CREATE/CONNECT; every LIMIT/OFFSET is drawn from {absent, 0, 1-4, 10, larger than any result}) run as text on one router and as direct calls on a twin, compared after every statement and on the final engine states; distinct by hash of the statement texts.",
+        rule: "totality: one evaluation = one input string (<= 4096 bytes: random bytes, printable ASCII, unicode incl. characters whose uppercase has another length, keyword/operator soup, 1-4 token-level mutations of ~870 statements taken from the parser's and the router's own tests, nesting of 19 kinds up to the depth that fits in 4 KiB) pushed through tokenize, parse_expr, parse, parse_all (each twice) and, when execution stays inside the engines, QueryRouter::execute_parsed and ::execute, on a 2 MiB-stack thread of a child process; distinct by hash of the text, non-trivial if it lexes to >= 2 tokens. precedence: one evaluation = one expression tree (all 722 two-operator, 180 unary/binary and 34 295 three-operator trees; random trees of height 2-8 over all 19 binary and 3 unary operators plus IS NULL/IN/BETWEEN/LIKE/calls/CASE/arrays/tuples; wide flat expressions of 20-450 operands - one-level chains, sums of products, AND-ed comparisons, all operators mixed - whose expected tree is the documented table's grouping and for which `nesting too deep` counts as a wrong parse) whose minimal-parentheses and fully-parenthesised prints both parse back to it through parse_expr and through the statement parser in SELECT-item, WHERE and UPDATE-SET position; distinct by hash of the minimal print, non-trivial with >= 2 operators. equivalence: one evaluation = one completed program of 20-49 generated statements (CREATE/DROP TABLE, CREATE INDEX, SHOW TABLES, INSERT, SELECT with projection/ORDER BY/LIMIT/OFFSET, SELECT COUNT(*)/COUNT/SUM/AVG/MIN/MAX [GROUP BY 1-2 columns] [HAVING COUNT..], UPDATE, DELETE, NODE/EDGE CREATE/GET/DELETE/LIST, NEIGHBORS [BY SIMILAR], PATH, FIND NODE/EDGE, EMBED STORE/GET/DELETE/BATCH [INTO collection], SHOW/COUNT EMBEDDINGS, SIMILAR key|vector [COSINE] [INTO collection] [WHERE metadata filter] [CONNECTED TO], ENTITY CREATE/CONNECT; every LIMIT/OFFSET is drawn from {absent, 0, 1-4, 10, larger than any result}) run as text on one router and as direct calls on a twin, compared after every statement and on the final engine states; distinct by hash of the statement texts.",
         assumptions: vec![
             "the documented table is expr.rs:7-18 / the book's Binding Power Table: OR < AND < comparison < | < ^ < & < shifts < + - || < * / % < unary NOT - ~ < postfix, binary operators left-associative; where it is silent (a compound operand of IS NULL / IN / BETWEEN / LIKE, bounds of BETWEEN, LIKE pattern) the printer always writes parentheses".into(),
             "expr.rs answering TooDeep (its documented nesting limit of 64) is an error, not a regrouping; such prints are skipped and counted".into(),
